@@ -314,7 +314,7 @@ pub fn check_any(c: &AnyCase, obs: &mut Obs) -> Result<(), String> {
 pub fn property() -> Property {
     Property {
         id: "C06",
-        rule: "Stream 'lists': a pattern of each kind (dewey one/two bounds, glob, '*', alternation, plain) and 2-7 candidate names over bases {a,b,ab,a-b,c} and a letter-free version pool rich in ties (1.0, 1, 1.0.0, 1_0, 1.0pl, 1.0nb0, 01.0, 1.00, 1.0nb1, 1.0rc1, 1.0RC1, 1.0pre1, 2, 0.9, 3, empty, and components around 2^32 / 14-digit dates); one list in forty has 30-70 candidates, with duplicates and names without '-'. Oracle: for every ordered pair, best_match = None iff neither matches, else the M-dewey maximum of the matching ones with ties to the byte-wise smaller name, and symmetric in its arguments; reducing the list pairwise (None as identity) along 6 generated permutations x 3 association trees (generated, left-deep, right-deep) gives the model's winner. Stream 'arbitrary': arbitrary patterns and names, self-consistency only (result is a matching candidate, the only matching one wins, symmetric, all 6 fold orders of three candidates agree). Non-trivial = at least 2 candidates match and (two of them tie with different text or different bases are involved). Distinct = distinct cases.",
+        rule: "Stream 'lists': a pattern of each kind (dewey one/two bounds, glob, '*', alternation, plain) and 2-7 candidate names over bases {a,b,ab,a-b,c} and a letter-free version pool rich in ties (1.0, 1, 1.0.0, 1_0, 1.0pl, 1.0nb0, 01.0, 1.00, 1.0nb1, 1.0rc1, 1.0RC1, 1.0pre1, 2, 0.9, 3, empty, and components around 2^32 / 14-digit dates); one list in forty has 30-70 candidates, with duplicates and names without '-'. Oracle: for every ordered pair, best_match = None iff neither matches, else the M-dewey maximum of the matching ones with ties to the byte-wise smaller name, and symmetric in its arguments; reducing the list pairwise (None as identity) along 6 generated permutations x 3 association trees (generated, left-deep, right-deep) gives the model's winner. Stream 'arbitrary': arbitrary patterns and names, self-consistency only (result is a matching candidate, the only matching one wins, symmetric, all 6 fold orders of three candidates agree). Non-trivial = at least 2 candidates match and (two of them tie with different text or different bases are involved). Distinct = distinct cases. Generators also draw, at low weight, tokens from the source-literal dictionary (every string / byte / character literal of the library's own source, collected at build time and filtered by this domain's character class) (through the C01 token generator).",
         assumptions: vec!["versions in the model-checked stream are letter-free so that known finding KF-1 cannot interfere"],
         streams: vec![
             random_stream("lists", "candidate lists, model winner, permutations and association trees", list_strategy, |t| t.pick(40_000, 3_000_000), check),
